@@ -87,10 +87,10 @@ class ToolboxTask:
         def invoke(first):
             if recv is None:
                 return thunk()
-            obj, name, kw = recv
+            obj, name, kw, npos = recv
             if kw is None:
                 return getattr(obj, name)
-            return getattr(obj, name)(*args, **kw)
+            return getattr(obj, name)(*args[:npos], **kw)       # args beyond npos are keyword arrays, digested too
         try:
             r1 = invoke(True)
         except Exception as e:      # noqa: BLE001 - the callable rejected these arguments: not a verdict
@@ -152,7 +152,7 @@ class Check:
     }
 
     def runs(self, tier):
-        return 1500 if tier == 'quick' else 40000
+        return 6000 if tier == 'quick' else 80000
 
     def wall_cap(self, tier):
         return 600 if tier == 'quick' else 6600
